@@ -14,7 +14,10 @@ STYLES = [[], ["--output-style=json"], ["--output-style=text"], ["--output-style
 
 def corrupt_expr(rnd, table, e):
     """A single-fault corruption of a valid expression text that is invalid whatever follows (kind, text)."""
-    k = rnd.choice(["truncate", "unbalanced", "unknown", "arity-", "arity+", "garbage", "open-string"])
+    k = rnd.choice(["truncate", "unbalanced", "unknown", "arity-", "arity+", "garbage", "open-string", "dangling"])
+    if k == "dangling":
+        # a path cut right after a separator
+        return k, rnd.choice([".a.", ".a#", ".l#0.", "(+ .a. 1)", "(size .l#)", ".a.b.", "^.a.", "(get .o. \"k\")", ".l#1#", "(concat .s. \"x\")"])
     if k == "truncate":
         if e.endswith(")"):
             return k, e[:-1]
